@@ -113,6 +113,96 @@ CHECKS.update({
         technique="TLA+ spec + TLC enumeration of all small grids + replay + TLC trace validation of results"),
 })
 
+CHECKS.update({
+    "C01": dict(
+        category="model_checking",
+        text="TrackFields.tla gives, per snapshot field, the normal form a stored value must read back as (padding to eight slots, "
+             "whole-second durations and timestamps, clamped ratings, the 0 / -1 sentinels) and the snapshots a schema cannot hold; "
+             "MCTrackFields enumerates the value classes of every field and checks on the model that normal forms are fixed points; every "
+             "class is written through create_track and update (all ordered pairs of base snapshots, seed-chosen arbitrary snapshots) on "
+             "the real library and TLC validates every read-back snapshot (SnapOK), the fixed-point step (identical snapshot after writing "
+             "the read-back one) and rejection without effect.",
+        design="§7 C01, §13",
+        note="values are opaque tokens (text / bit patterns / digests); the 2.x waveform (1024-point overview) is judged by the fixed "
+             "point only; a rejected write is always acceptable; " + TRUST,
+        technique="TLA+ spec (TrackFields.tla) + TLC enumeration of value classes + replay + relational TLC trace validation"),
+    "C06": dict(
+        category="model_checking",
+        text="TraceTrackFields is a relational state machine over the snapshots of all tracks: a setter call must make the addressed "
+             "field read back as set (FieldOK) and leave every other field of that track and every field of every other track unchanged; "
+             "all 25 getters, the per-slot getters and snapshot() must agree, filename()/file_extension() must follow the path. Every "
+             "setter with every value class, seed-chosen pairs and 40-step random setter sequences over three tracks are executed.",
+        design="§7 C06, §13",
+        note="a setter that throws must change nothing; no getter exists for file_bytes; " + TRUST,
+        technique="TLA+ spec + TLC-enumerated setter sequences + replay + relational TLC trace validation after every call"),
+    "C02": dict(
+        category="model_checking",
+        text="EngineFormat.tla is an independent implementation of the eleven blob layouts (field order, widths, endianness, count "
+             "fields, frame); every value of MCEngineFormat and seed-chosen values are encoded by the library and TLC compares the "
+             "un-framed payload and the 4-byte prefix with the specification's encoder; conversely payloads produced by the specification's "
+             "encoder are decoded by the library and TLC compares the decoded value.",
+        design="§7 C02",
+        note="the layouts were written once against the pinned encoders (no format documentation exists in the repository); framing in the "
+             "harness uses plain zlib; " + TRUST,
+        technique="TLA+ spec of the binary layouts + TLC enumeration + differential TLC trace validation in both directions"),
+    "C03": dict(
+        category="model_checking",
+        text="EngineFormat!Encodable states which values each format can hold; for every enumerated and seed-chosen value (arbitrary double "
+             "bit patterns, labels of 0..300 bytes, 0..12 entries, larger grids / waveforms) TLC requires: encodable => encode and decode "
+             "succeed and give the value back (-1 offsets of 1.x being the only values that read back absent); not encodable => the "
+             "encoder throws.",
+        design="§7 C03",
+        note="1.x overview waveforms are generated with opacity 255 (the format stores none); " + TRUST,
+        technique="TLA+ spec (Encodable / Norm) + TLC enumeration + TLC trace validation of encode-decode round trips"),
+    "C04": dict(
+        category="model_checking",
+        text="Foreign payloads for the five 2.x blob types are produced by the specification's encoder with contents the library never "
+             "writes (odd counts, flag bytes 0..255, unknown fields, different grids, trailing bytes) and by seed-chosen mutation; the "
+             "library decodes and re-encodes them and TLC requires byte-for-byte equality, the boolean main-cue-adjusted byte alone being "
+             "normalised.",
+        design="§7 C04",
+        note="the setter part (single-field setters on tracks) is covered through C06's frame on snapshot level, not on raw blob bytes; " + TRUST,
+        technique="TLA+ spec of the layouts + spec-generated foreign blobs + TLC trace validation of decode/re-encode"),
+    "C05": dict(
+        category="exploration",
+        text="InflateLoop.tla models the chunk loop of zlib_uncompress against an abstract inflate; TLC proves hand-off safety and "
+             "termination under fairness on small instances; DecoderInputs.tla enumerates truncations, boundary classes of every embedded "
+             "count field and byte corruptions per decoder; all are fed to the decoders in the ASan+UBSan build; TLC validates outcomes and "
+             "recorded zlib hand-offs (no stall, regions addressable); crashes and sanitizer reports are reported directly.",
+        design="§7 C05, §9",
+        note="memory safety is observed by sanitizers, not decided by TLA+; libz itself is uninstrumented (the shim checks the regions); "
+             "no coverage-guided fuzzing; " + TRUST,
+        technique="TLA+ loop model (TLC, liveness) + spec-derived input classes + sanitizer replay + TLC trace validation of hand-offs"),
+    "C15": dict(
+        category="exploration",
+        text="The histories of the Library and TrackFields models are replayed in the ASan+UBSan+_GLIBCXX_ASSERTIONS build, each "
+             "followed by a probe battery outside the modelled domain (stale handles, nonexistent ids, foreign crates, indices -1..9 and "
+             "+-2^31, 12-slot lists, 300-byte labels, extreme numbers, waveform without rate); TLC (TProbe) validates outcome classes and "
+             "the stale-handle contract; any death, sanitizer report or hang is reported.",
+        design="§7 C15, §9",
+        note="UB that neither crashes nor trips a sanitizer is invisible; " + TRUST,
+        technique="TLA+ call-domain model + sanitizer replay of model histories and probe batteries + TLC trace validation"),
+    "C17": dict(
+        category="model_checking",
+        text="SchemaVerify.tla defines every single-element mutation of a schema inventory and that each is a deviation; for every "
+             "supported schema TLC enumerates the mutations of the inventory of a freshly created library, each mutant is materialised "
+             "with an independent SQLite binding, load_database + verify() runs on it, and TLC requires database_inconsistency; created, "
+             "copied and all 57 reference libraries must be accepted.",
+        design="§7 C17",
+        note="mutations SQLite cannot express on a schema are counted, not judged; a mutant that cannot be loaded counts as reported; " + TRUST
+             + "; Python's sqlite3 module",
+        technique="TLA+ mutation model + TLC enumeration + materialised mutants + TLC trace validation of verify() verdicts"),
+    "C18": dict(
+        category="model_checking",
+        text="TableApi.tla states the row-store contract (RowOK, SetColOK, database-maintained columns, errors for missing rows); every "
+             "column of the Track table is written alone and through whole rows whose columns hold pairwise distinct values, with every "
+             "optional present and absent, plus all short operation sequences from MCTableApi, on all seven 2.x schemas; TLC validates "
+             "rows and per-column accessors after every call.",
+        design="§7 C18",
+        note="time points at whole-second resolution; blob columns compared by digest; columns a schema lacks are unconstrained; " + TRUST,
+        technique="TLA+ row-store spec + TLC-enumerated operation sequences + replay + relational TLC trace validation"),
+})
+
 NOT_YET = "check not built yet (work in progress)"
 NA = {
     "C12": "static comparison of two DDL texts modulo whitespace/quoting: no state, no transitions, nothing for TLC to explore "
